@@ -3,7 +3,7 @@
  *
  * stdin lines:
  *   W                 walk the whole hyperframe with delta 1
- *   D <stride> <off>  deltas {2..60,1325,1326,2715647} at every fn = off (mod stride),
+ *   D <stride> <off>  deltas {0,2..60,102,1325,1326,1327,2652,84864,2715647} at every fn = off (mod stride),
  *                     plus every fn within +-60 of a multiple of 26*51 and of the wrap
  *   T <path>          write the table produced by the real gsm_fn2gsmtime (4 octets/fn:
  *                     t1 hi, t1 lo, t2, t3) for the Python comparison
@@ -65,7 +65,7 @@ static void report(const char *kind, uint32_t fn, uint32_t d, const struct gsm_t
 			exp_fn, tab[exp_fn].t1, tab[exp_fn].t2, tab[exp_fn].t3, tab[exp_fn].tc);
 }
 
-static const uint32_t big_deltas[] = { 1325, 1326, 2715647 };
+static const uint32_t big_deltas[] = { 0, 102, 1325, 1326, 1327, 2652, 84864, 2715647 };
 
 static unsigned long deltas_at(uint32_t fn)
 {
@@ -79,7 +79,7 @@ static unsigned long deltas_at(uint32_t fn)
 		if (!same(&t, (fn + d) % HYPER)) report("inc", fn, d, &t, (fn + d) % HYPER);
 		n++;
 	}
-	for (i = 0; i < 3; i++) {
+	for (i = 0; i < sizeof(big_deltas) / sizeof(big_deltas[0]); i++) {
 		d = big_deltas[i];
 		load(&t, fn);
 		l1s_time_inc(&t, d);
